@@ -2,5 +2,6 @@ CONSTANTS LimitBytes = 512000
 SPECIFICATION TraceSpec
 INVARIANT DeliveredAtFini
 INVARIANT NeverOverReportedF
+INVARIANT CounterOK
 POSTCONDITION TraceAccepted
 CHECK_DEADLOCK FALSE
